@@ -10,7 +10,7 @@
 const char* const PROPERTY_ID = "C05";
 const size_t PROPERTY_MAXLEN = 260;
 
-void property_init() {}
+void property_init() { vf::gen::g_huge_hosts = true; }
 
 namespace {
 
